@@ -1,6 +1,7 @@
 (* TotalRepairInst.v — C08, part 7': repair_total (TotalRepair.v) instantiated with the
    sources the repair entry points of Run.v use: the cursor over ANY bytes (layer-less
    archives) and the fail-safe decryptor, both modes, over ANY bytes (Run.FsEnc). *)
+From MLA Require Import Limit.
 From MLA Require Import Base Stream Blocks Writer Repair EncLayer Inst Run Total TotalEnc TotalRepair.
 From MLA.Concrete Require Sha256.
 From Coq Require Import ZifyBool ZifyNat ZifyN.
@@ -22,6 +23,7 @@ Proof.
 Qed.
 
 Section Inst.
+  Context {LIM : Limit}.
   Variable FNMAX CACHE : N.
   Variables T_START T_CONTENT T_EOA T_EOF : N.
   Variable H : bytes -> bytes.
@@ -40,7 +42,7 @@ Section Inst.
 
   Theorem repair_strong_plain (w : bytes) fuel p out0 : (N.to_nat (len w) < fuel)%nat ->
     match repair (Cursor w) fuel p out0 with
-    | Ok _ => True | Err e => e = EState | Crash _ => False
+    | Ok _ => True | Err e => e = EState \/ e = EDeser | Crash _ => False
     end.
   Proof.
     intros Hf.
@@ -97,7 +99,7 @@ End Inst.
 
 (* the very calls of the Tie-B entry points Run.repair_plain / Run.repair_enc (fuel
    |body| + 16, SHA-256, the tags of the source, either set of constants) *)
-Theorem repair_plain_entry_total (k : consts) (body : bytes) : 0 < cCACHE k ->
+Theorem repair_plain_entry_total {LIM : Limit} (k : consts) (body : bytes) : 0 < cCACHE k ->
   total (repair (cFNMAX k) (cCACHE k) Src.BT_FileStart Src.BT_FileContent Src.BT_EndOfArchiveData
            Src.BT_EndOfFile Sha256.sha256 (Cursor body) (N.to_nat (len body) + 16) 0
            (w_init)).
